@@ -18,10 +18,12 @@ Pad(gr, lvl) == IF gr.kind = "open" THEN gr.padding[lvl] ELSE 0
 Refined(gr, lvl) == Pad(gr, lvl + 1)..(ShapeAt(gr, lvl) - Pad(gr, lvl + 1) - 1)
 Children(gr, lvl, i) == LET f == gr.splits[lvl + 1] IN {(i - Pad(gr, lvl + 1)) * f + c : c \in 0..(f - 1)}
 Parent(gr, lvl, j) == (j \div gr.splits[lvl]) + Pad(gr, lvl)                           \* index at level lvl -> level lvl-1
-\* window of 3 around i: periodic wrap for the periodic grids, clipping for the open grid
-Clip(x, n) == IF x < 0 THEN 0 ELSE IF x > n - 1 THEN n - 1 ELSE x
+\* window of 3 around i: periodic wrap for the periodic grids.  For the open grid a neighbourhood is only specified where the
+\* refinement uses it: around refined indices of a level whose padding covers half the window (then it never leaves the grid)
 Nbr(gr, lvl, i) == LET n == ShapeAt(gr, lvl) IN
-                   [d \in 1..3 |-> IF gr.kind = "open" THEN Clip(i + d - 2, n) ELSE (i + d - 2 + n) % n]
+                   [d \in 1..3 |-> IF gr.kind = "open" THEN i + d - 2 ELSE (i + d - 2 + n) % n]
+NbrDefined(gr, lvl) == IF gr.kind # "open" THEN 0..(ShapeAt(gr, lvl) - 1)
+                       ELSE IF lvl < Depth(gr) /\ Pad(gr, lvl + 1) >= 1 THEN Refined(gr, lvl) ELSE {}
 Compute(gr) ==
   LET lv == 0..(Depth(gr) - 1)
       all == 0..Depth(gr)
@@ -33,10 +35,10 @@ Compute(gr) ==
               /\ UNION {ch[l][i] : i \in Refined(gr, l)} = 0..(ShapeAt(gr, l + 1) - 1)                       \* ... and cover the next level
               \* refinement never creates volume: f children of volume 1/(f n) make up a parent of volume 1/n (periodic, HEALPix)
               /\ (gr.kind # "open" => gr.splits[l + 1] * ShapeAt(gr, l) = ShapeAt(gr, l + 1))
-              /\ \A i \in 0..(ShapeAt(gr, l) - 1) : \A d \in 1..3 : Nbr(gr, l, i)[d] \in 0..(ShapeAt(gr, l) - 1)    \* neighbourhoods stay inside
+              /\ \A i \in NbrDefined(gr, l) : \A d \in 1..3 : Nbr(gr, l, i)[d] \in 0..(ShapeAt(gr, l) - 1)    \* neighbourhoods stay inside
   IN [shapes |-> [l \in 1..(Depth(gr) + 1) |-> ShapeAt(gr, l - 1)],
       children |-> UNION {{[l |-> l, i |-> i, cs |-> ch[l][i]] : i \in Refined(gr, l)} : l \in lv},
-      nbrs |-> UNION {{[l |-> l, i |-> i, nb |-> Nbr(gr, l, i)] : i \in 0..(ShapeAt(gr, l) - 1)} : l \in all},
+      nbrs |-> UNION {{[l |-> l, i |-> i, nb |-> Nbr(gr, l, i)] : i \in NbrDefined(gr, l)} : l \in all},
       \* periodic grid on the unit interval: centre (2 i + 1) / (2 n), volume 1 / n
       coords |-> IF gr.kind = "periodic" THEN UNION {{[l |-> l, i |-> i, num |-> 2 * i + 1, den |-> 2 * ShapeAt(gr, l)] : i \in 0..(ShapeAt(gr, l) - 1)} : l \in all} ELSE {},
       ok |-> ok]
